@@ -196,6 +196,15 @@ class E:
             out += k.subqueries(risky_only)
         return out
 
+    def sourceless(self):
+        """no column of any table feeds this expression: a literal, or an expression over literals and scalar sub-queries that select literals"""
+        if self.cols():
+            return False
+        for q in self.subqueries():
+            if not isinstance(q, Select) or any(it.is_star or not it.expr.sourceless() for it in q.items):
+                return False
+        return True
+
     def render(self, r):
         k = self.kind
         if k == "case_multi":
@@ -233,6 +242,8 @@ class E:
         t = {"expr." + self.kind} if self.kind not in ("col", "lit") else set()
         if self.kind == "col":
             t.add("col.qualified" if self.q else "col.unqualified")
+            if getattr(self, "outer", False):
+                t.add("col.correlated")
             if self.q and getattr(self, "qfull", None):
                 t.add("col.qualified_by_full_name")
         if self.kind == "scalar":
@@ -437,6 +448,8 @@ class Select:
     def _resolve(self, c, env, ds, notes):
         """origins of one column reference in this select's scope"""
         rels = self.rels()
+        if getattr(c, "outer", False) and not getattr(c, "_in_outer_scope", False):
+            return set()  # bound by the enclosing query, which resolves it (see outputs)
         if c.q is not None:
             match = [rel for rel in rels if rel.key() == c.q]
             if not match:
@@ -479,6 +492,15 @@ class Select:
             for q in it.expr.subqueries():
                 for _, o2, _l in q.outputs(env, ds, notes):
                     orig |= o2
+                # correlated references in the sub-query's select list are columns of this scope
+                for it2 in (q.items if isinstance(q, Select) else []):
+                    for c in ([] if it2.is_star else it2.expr.cols()):
+                        if getattr(c, "outer", False):
+                            c._in_outer_scope = True
+                            try:
+                                orig |= self._resolve(c, env, ds, notes)
+                            finally:
+                                c._in_outer_scope = False
             out.append((it.out_name(), orig, not it.expr.cols() and not it.expr.subqueries()))
         return out
 
@@ -591,7 +613,7 @@ class SetOp:
             t.add("setop.parenthesised")
         for i, b in enumerate(self.branches):
             t |= b.tags()
-            if i == 0 and any((not it.is_star) and it.expr.kind == "lit" for it in b.items):
+            if i == 0 and any((not it.is_star) and (it.expr.kind == "lit" or it.expr.sourceless()) for it in b.items):
                 t.add("setop.first_branch_literal")
             if i > 0 and any((not it.is_star) and it.expr.kind == "lit" for it in b.items):
                 t.add("setop.later_branch_literal")
@@ -861,7 +883,7 @@ def expected(stmt, ds=None):
     kf05 = set()
     for q in walk(stmt):
         if isinstance(q, SetOp) and q.branches and isinstance(q.branches[0], Select) and \
-                any((not it.is_star) and it.expr.kind == "lit" for it in q.branches[0].items):
+                any((not it.is_star) and (it.expr.kind == "lit" or it.expr.sourceless()) for it in q.branches[0].items):
             for b in q.branches[1:]:
                 kf05 |= b.reads(ds)
                 if '"cte"' in repr([rel.kind for s in _all_selects(b) for rel in s.rels()]).replace("'", '"'):
@@ -913,9 +935,19 @@ class Gen:
                 # coalesce((select max(c) from t), a.x): a scalar sub-query as operand (never nested in another one)
                 self._in_scalar = True
                 try:
-                    return E("scalar", query=self.query(0, nitems=1, named=True, allow_setop=False))
+                    q = self.query(0, nitems=1, named=True, allow_setop=False)
                 finally:
                     self._in_scalar = False
+                if isinstance(q, Select) and not q.items[0].is_star and self.aux.random() < 0.5:
+                    # correlated: the sub-query's select expression also uses a column of the enclosing query, qualified by a name that
+                    # only the enclosing FROM clause binds:  (select max(r.x - o.a) from r) ... from s o
+                    oc = col_fn()
+                    inner = {x.key().lower() for x in q.rels()} | {getattr(x, "name", "").lower() for x in q.rels()}
+                    if oc.kind == "col" and oc.q and oc.q.lower() not in inner:
+                        oc.qfull = None
+                        oc.outer = True
+                        q.items[0].expr = E("arith", q.items[0].expr, oc, fname=self.aux.choice(["-", "+"]))
+                return E("scalar", query=q)
             return col_fn()
         k = r.choice(["arith", "func", "case", "cast", "window", "coalesce"])
         if k == "arith":
@@ -1558,6 +1590,7 @@ def alpha_rename(stmt, rnd, mode="rename", pool=()):
                 rel.use_as = not rel.use_as
         return st, mapping
     used = {rel.key() for _, rel in rels} | {rel.name for _, rel in rels if rel.kind in ("base", "cte")}
+    correlated = any(getattr(e, "outer", False) for e in exprs)  # then inner names must not come to shadow outer ones
     withs = [q for q in walk(st) if isinstance(q, With)]
 
     def fresh(avoid):
@@ -1585,7 +1618,7 @@ def alpha_rename(stmt, rnd, mode="rename", pool=()):
                 taken_here = {str(mapping[r2.alias]).lower() for r2 in (sel.rels() if sel is not None else []) if getattr(r2, "alias", None) in mapping}
                 # the name taken over is the FINAL name of that other-scope alias (pinned to itself if it has not been renamed yet)
                 elsewhere = [x for x in elsewhere if str(mapping.get(x, x)).lower() not in taken_here and str(mapping.get(x, x)).lower() not in scope]
-                if elsewhere and rnd.random() < 0.4:
+                if elsewhere and not correlated and rnd.random() < 0.4:
                     x = rnd.choice(elsewhere)
                     mapping.setdefault(x, x)
                     mapping[rel.alias] = mapping[x]
@@ -1599,6 +1632,8 @@ def alpha_rename(stmt, rnd, mode="rename", pool=()):
         for sel, rel in rels:
             if rel.kind == "base" and rel.alias and sel is not None:
                 others = [r for r in sel.rels() if r is not rel]
+                if correlated and any(r.key() == rel.name or getattr(r, "name", None) == rel.name for _, r in rels if r is not rel):
+                    continue
                 if all(r.key() != rel.name and getattr(r, "name", None) != rel.name for r in others) and rnd.random() < 0.7:
                     mapping[rel.alias] = rel.name
     elif mode == "add_alias":
